@@ -299,6 +299,12 @@ func c27Build(c c27Case) (*c27Built, error) {
 			}
 		}
 	}
+	// a caller may look at the signature hashes before the transaction is complete (and
+	// again afterwards, e.g. when signing is retried): the hashes that count are the ones
+	// computed last. Every second case peeks before the outputs are added.
+	if (len(c.Kinds)+c.Outs+c.Key+c.Vals)%2 == 0 {
+		_, _ = b.builder.ComputeSignatureHashes()
+	}
 	// outputs: first to the wallet (P2WPKH), second to somebody else (P2PKH)
 	fee := int64(len(c.Kinds)) * 40
 	if fee >= total {
